@@ -104,7 +104,7 @@ static void run_object(int kind, uint32_t S, int tier)
 }
 
 /* basic objects and the fixed strings: both modes, small block sizes, every acknowledge position of the first block */
-static const struct { int o; uint16_t idx; uint8_t sub; } BT[] = { {O_U8, 0x2000, 0}, {O_U16, 0x2001, 0}, {O_U32, 0x2002, 0}, {O_U32D, 0x2003, 0}, {O_RO, 0x2004, 0}, {O_NID, 0x2006, 0},
+static const struct { int o; uint16_t idx; uint8_t sub; } BT[] = { {O_U8, 0x2000, 0}, {O_U16, 0x2001, 0}, {O_U32, 0x2002, 0}, {O_U32D, 0x2003, 0}, {O_RO, 0x2004, 0}, {O_NID, 0x2006, 0}, {O_U16D, 0x2007, 0}, {O_U8D, 0x2008, 0}, {O_U32Z, 0x2009, 0},
     {O_DOM3, 0x2010, 0}, {O_DOMA, 0x2011, 0}, {O_STR3, 0x2020, 0}, {O_STR5, 0x2021, 0}, {O_STR12, 0x2022, 0}, {O_SUB0, 0xA030, 0}, {O_SUB1, 0xA030, 1}, {O_RANGE, 0xA040, 0} };
 static void basic_case(int t, int mode, int bs, int k0)
 {
